@@ -111,10 +111,10 @@ Qed.
 Theorem nbrs_overlap_even hx hy vx vy fx fy :
   2 <= hx -> 2 <= hy ->
   0 <= vx < 2 * hx -> 0 <= vy < 2 * hy -> 0 <= fx < 2 * hx -> 0 <= fy < 2 * hy ->
-  vx mod 2 = 0 -> vy mod 2 = 0 -> fx mod 2 = 1 -> fy mod 2 = 1 ->
+  vx <> fx -> vy <> fy ->
   overlap_par (nbrs (2 * hx) (2 * hy) (vx, vy)) (nbrs (2 * hx) (2 * hy) (fx, fy)) = false.
 Proof.
-  intros Hhx Hhy Hvx Hvy Hfx Hfy Pvx Pvy Pfx Pfy.
+  intros Hhx Hhy Hvx Hvy Hfx Hfy Nx Ny.
   unfold overlap_par. remember (nbrs (2 * hx) (2 * hy) (fx, fy)) as F eqn:EF. cbn [nbrs map fold_left]. subst F. rewrite !mem_nbrs.
   assert (E1 : (vy =? fy) = false) by lia. assert (E2 : (vx =? fx) = false) by lia.
   rewrite E1, E2, !andb_false_r, !andb_false_l, !orb_false_l, !orb_false_r. cbn [xorb].
@@ -172,6 +172,102 @@ Proof.
   rewrite !support_is_nbrs by lia. apply nbrs_overlap_even; lia.
 Qed.
 
+(** *** all stabilizer generators pairwise commute, for every size: operators of the same type commute
+    trivially, a Z-type and an X-type operator commute iff they share an even number of qubits *)
+Definition ops_commute (za : bool) (sa : list pt) (zb : bool) (sb : list pt) : bool :=
+  if Bool.eqb za zb then true else negb (overlap_par sa sb).
+Theorem toric2d_stabilizers_commute Lx Ly s s' :
+  2 <= Lx -> 2 <= Ly -> In s (stab_coords Lx Ly) -> In s' (stab_coords Lx Ly) ->
+  ops_commute (is_vertex s) (support Lx Ly s) (is_vertex s') (support Lx Ly s') = true.
+Proof.
+  intros HLx HLy Hs Hs'. unfold ops_commute. destruct (Bool.eqb (is_vertex s) (is_vertex s')) eqn:E; [reflexivity|].
+  apply negb_true_iff. destruct s as [vx vy], s' as [fx fy]. unfold is_vertex in E; cbn [fst] in E.
+  assert (R : forall x y, In (x, y) (stab_coords Lx Ly) -> 0 <= x < 2 * Lx /\ 0 <= y < 2 * Ly /\ x mod 2 = y mod 2).
+  { intros x y H. unfold stab_coords, odds, evens in H. rewrite in_app_iff, !in_flat_map in H.
+    destruct H as [[x' [Hx Hy]]|[x' [Hx Hy]]]; rewrite in_map_iff in Hy; destruct Hy as [y' [E' Hy]]; injection E' as -> ->;
+      rewrite in_range2 in Hx, Hy; destruct Hx as [k [Hk ->]], Hy as [j [Hj ->]]; lia. }
+  destruct (R _ _ Hs) as (V1 & V2 & V3). destruct (R _ _ Hs') as (F1 & F2 & F3).
+  assert (Pd : vx mod 2 <> fx mod 2).
+  { destruct (vx mod 2 =? 0) eqn:A, (fx mod 2 =? 0) eqn:B; cbn in E; try discriminate; lia. }
+  rewrite !support_is_nbrs by lia. apply nbrs_overlap_even; lia.
+Qed.
+
+(** *** the listed logical operators commute with every stabilizer generator, for every size.
+    Logical X_1 = X on {(x,0) : x odd}, X_2 = X on {(0,y) : y odd} (X-type: only vertices matter);
+    logical Z_1 = Z on {(1,y) : y even}, Z_2 = Z on {(x,1) : x even} (Z-type: only faces matter). *)
+Definition lx1 (Lx : Z) : list pt := map (fun x => (x, 0)) (odds Lx).
+Definition lx2 (Ly : Z) : list pt := map (fun y => (0, y)) (odds Ly).
+Definition lz1 (Ly : Z) : list pt := map (fun y => (1, y)) (evens Ly).
+Definition lz2 (Lx : Z) : list pt := map (fun x => (x, 1)) (evens Lx).
+
+Lemma mem_lx1 Lx x y : 0 < Lx -> mem (x, y) (lx1 Lx) = ((y =? 0) && (0 <=? x) && (x <? 2 * Lx) && (x mod 2 =? 1)).
+Proof.
+  intros H. apply Bool.eq_true_iff_eq. rewrite mem_In. unfold lx1, odds. rewrite in_map_iff. split.
+  - intros [x' [E Hx]]. injection E as -> <-. apply in_range2 in Hx. destruct Hx as [k [Hk ->]]. lia.
+  - intros Hb. exists x. split; [f_equal; lia|]. apply in_range2. exists (x / 2). lia.
+Qed.
+Lemma mem_lx2 Ly x y : 0 < Ly -> mem (x, y) (lx2 Ly) = ((x =? 0) && (0 <=? y) && (y <? 2 * Ly) && (y mod 2 =? 1)).
+Proof.
+  intros H. apply Bool.eq_true_iff_eq. rewrite mem_In. unfold lx2, odds. rewrite in_map_iff. split.
+  - intros [y' [E Hy]]. injection E as <- ->. apply in_range2 in Hy. destruct Hy as [k [Hk ->]]. lia.
+  - intros Hb. exists y. split; [f_equal; lia|]. apply in_range2. exists (y / 2). lia.
+Qed.
+Lemma mem_lz1 Ly x y : 0 < Ly -> mem (x, y) (lz1 Ly) = ((x =? 1) && (0 <=? y) && (y <? 2 * Ly) && (y mod 2 =? 0)).
+Proof.
+  intros H. apply Bool.eq_true_iff_eq. rewrite mem_In. unfold lz1, evens. rewrite in_map_iff. split.
+  - intros [y' [E Hy]]. injection E as <- ->. apply in_range2 in Hy. destruct Hy as [k [Hk ->]]. lia.
+  - intros Hb. exists y. split; [f_equal; lia|]. apply in_range2. exists (y / 2). lia.
+Qed.
+Lemma mem_lz2 Lx x y : 0 < Lx -> mem (x, y) (lz2 Lx) = ((y =? 1) && (0 <=? x) && (x <? 2 * Lx) && (x mod 2 =? 0)).
+Proof.
+  intros H. apply Bool.eq_true_iff_eq. rewrite mem_In. unfold lz2, evens. rewrite in_map_iff. split.
+  - intros [x' [E Hx]]. injection E as -> <-. apply in_range2 in Hx. destruct Hx as [k [Hk ->]]. lia.
+  - intros Hb. exists x. split; [f_equal; lia|]. apply in_range2. exists (x / 2). lia.
+Qed.
+
+Theorem toric2d_logicals_commute_with_stabilizers Lx Ly s :
+  2 <= Lx -> 2 <= Ly -> In s (stab_coords Lx Ly) ->
+  (* X-type logicals against Z-type (vertex) generators, Z-type logicals against X-type (face) generators *)
+  (is_vertex s = true -> overlap_par (support Lx Ly s) (lx1 Lx) = false /\ overlap_par (support Lx Ly s) (lx2 Ly) = false) /\
+  (is_vertex s = false -> overlap_par (support Lx Ly s) (lz1 Ly) = false /\ overlap_par (support Lx Ly s) (lz2 Lx) = false).
+Proof.
+  intros HLx HLy Hs. destruct s as [x y]. unfold is_vertex; cbn [fst].
+  assert (R : 0 <= x < 2 * Lx /\ 0 <= y < 2 * Ly /\ x mod 2 = y mod 2).
+  { unfold stab_coords, odds, evens in Hs. rewrite in_app_iff, !in_flat_map in Hs.
+    destruct Hs as [[x' [Hx Hy]]|[x' [Hx Hy]]]; rewrite in_map_iff in Hy; destruct Hy as [y' [E' Hy]]; injection E' as -> ->;
+      rewrite in_range2 in Hx, Hy; destruct Hx as [k [Hk ->]], Hy as [j [Hj ->]]; lia. }
+  destruct R as (Rx & Ry & Rp). rewrite support_is_nbrs by lia.
+  destruct (wrap_pred Lx x HLx Rx) as [A1 A2]. destruct (wrap_succ Lx x HLx Rx) as [B1 B2].
+  destruct (wrap_pred Ly y HLy Ry) as [C1 C2]. destruct (wrap_succ Ly y HLy Ry) as [D1 D2].
+  unfold overlap_par, nbrs. cbn [map fold_left].
+  rewrite !mem_lx1, !mem_lx2, !mem_lz1, !mem_lz2 by lia.
+  set (xp := (x - 1) mod (2 * Lx)) in *. set (xs := (x + 1) mod (2 * Lx)) in *.
+  set (yp := (y - 1) mod (2 * Ly)) in *. set (ys := (y + 1) mod (2 * Ly)) in *.
+  clearbody xp xs yp ys.
+  split; intros Hv; split.
+  - (* vertex vs X_1: the two x-edge neighbours lie on the line y = 0 together *)
+    assert (E1 : ((y =? 0) && (0 <=? xp) && (xp <? 2 * Lx) && (xp mod 2 =? 1)) = (y =? 0)) by lia.
+    assert (E2 : ((y =? 0) && (0 <=? xs) && (xs <? 2 * Lx) && (xs mod 2 =? 1)) = (y =? 0)) by lia.
+    assert (E3 : ((yp =? 0) && (0 <=? x) && (x <? 2 * Lx) && (x mod 2 =? 1)) = false) by lia.
+    assert (E4 : ((ys =? 0) && (0 <=? x) && (x <? 2 * Lx) && (x mod 2 =? 1)) = false) by lia.
+    rewrite E1, E2, E3, E4. destruct (y =? 0); reflexivity.
+  - assert (E1 : ((xp =? 0) && (0 <=? y) && (y <? 2 * Ly) && (y mod 2 =? 1)) = false) by lia.
+    assert (E2 : ((xs =? 0) && (0 <=? y) && (y <? 2 * Ly) && (y mod 2 =? 1)) = false) by lia.
+    assert (E3 : ((x =? 0) && (0 <=? yp) && (yp <? 2 * Ly) && (yp mod 2 =? 1)) = (x =? 0)) by lia.
+    assert (E4 : ((x =? 0) && (0 <=? ys) && (ys <? 2 * Ly) && (ys mod 2 =? 1)) = (x =? 0)) by lia.
+    rewrite E1, E2, E3, E4. destruct (x =? 0); reflexivity.
+  - assert (E1 : ((xp =? 1) && (0 <=? y) && (y <? 2 * Ly) && (y mod 2 =? 0)) = false) by lia.
+    assert (E2 : ((xs =? 1) && (0 <=? y) && (y <? 2 * Ly) && (y mod 2 =? 0)) = false) by lia.
+    assert (E3 : ((x =? 1) && (0 <=? yp) && (yp <? 2 * Ly) && (yp mod 2 =? 0)) = (x =? 1)) by lia.
+    assert (E4 : ((x =? 1) && (0 <=? ys) && (ys <? 2 * Ly) && (ys mod 2 =? 0)) = (x =? 1)) by lia.
+    rewrite E1, E2, E3, E4. destruct (x =? 1); reflexivity.
+  - assert (E1 : ((y =? 1) && (0 <=? xp) && (xp <? 2 * Lx) && (xp mod 2 =? 0)) = (y =? 1)) by lia.
+    assert (E2 : ((y =? 1) && (0 <=? xs) && (xs <? 2 * Lx) && (xs mod 2 =? 0)) = (y =? 1)) by lia.
+    assert (E3 : ((yp =? 1) && (0 <=? x) && (x <? 2 * Lx) && (x mod 2 =? 0)) = false) by lia.
+    assert (E4 : ((ys =? 1) && (0 <=? x) && (x <? 2 * Lx) && (x mod 2 =? 0)) = false) by lia.
+    rewrite E1, E2, E3, E4. destruct (y =? 1); reflexivity.
+Qed.
+
 (** ** tables for the tie with the implementation *)
 Definition table (Lx Ly : Z) : list pt * list pt * list (list pt) :=
   (qubits Lx Ly, stab_coords Lx Ly, map (support Lx Ly) (stab_coords Lx Ly)).
@@ -181,3 +277,5 @@ Fixpoint ptll_eqb (a b : list (list pt)) : bool :=
   match a, b with [], [] => true | x :: a', y :: b' => ptl_eqb x y && ptll_eqb a' b' | _, _ => false end.
 Definition table_matches (Lx Ly : Z) (qs ss : list pt) (supports : list (list pt)) : bool :=
   ptl_eqb (qubits Lx Ly) qs && ptl_eqb (stab_coords Lx Ly) ss && ptll_eqb (map (support Lx Ly) (stab_coords Lx Ly)) supports.
+Definition logicals_match (Lx Ly : Z) (x1 x2 z1 z2 : list pt) : bool :=
+  ptl_eqb (lx1 Lx) x1 && ptl_eqb (lx2 Ly) x2 && ptl_eqb (lz1 Ly) z1 && ptl_eqb (lz2 Lx) z2.
